@@ -579,6 +579,18 @@ def fam_rules(rng):
            {"op": "craft", "s": "N2", "t": "t5", "l": 3, "r": 3, "w": 3, "id": 11}, D("N1", 11), D("N1", 7),
            {"op": "tick", "n": "N1", "times": 3}]
     out.append(("rules", 2, ops))
+    # the same offers when the node TRUSTS the sealing node: trust exempts from the accounting test, not from the rules
+    T, U = {"op": "trust", "n": "N1", "a": "N2"}, {"op": "untrust", "n": "N1", "a": "N2"}
+    trusted = [G(), P("N1", "t1", 2), T,
+               {"op": "craft", "s": "N2", "t": "t7", "l": 2, "r": 2, "w": 2, "id": 3}, D("N1", 3),      # sealed by its own issuer
+               {"op": "craft", "s": "N2", "t": "t9", "l": 2, "r": 2, "w": 2, "id": 4}, D("N1", 4),      # neither data nor spice
+               {"op": "craft", "s": "N2", "t": "t10", "l": 2, "r": 2, "w": 2, "id": 5}, D("N1", 5),     # not canonical
+               {"op": "craft", "s": "N2", "t": "t8", "l": 2, "r": 2, "w": 2, "id": 6}, D("N1", 6),      # issued by the node's own wallet
+               {"op": "craft", "s": "N2", "t": "t5", "l": 2, "r": 2, "w": 2, "id": 7}, D("N1", 7),      # an ordinary contract: admitted
+               {"op": "craft", "s": "N2", "t": "t7", "l": 7, "r": 7, "w": 3, "id": 8},
+               {"op": "craft", "s": "N2", "t": "t9", "l": 8, "r": 8, "w": 4, "id": 9}, D("N1", 9), D("N1", 8),   # through the orphan path
+               {"op": "tick", "n": "N1", "times": 3}, U, D("N1", 3), D("N1", 4), P("N1", "t9", 10), P("N1", "t5", 10)]
+    out.append(("rules", 2, trusted))
     # genesis naming its own issuer as receiver is refused and leaves the node unloaded
     out.append(("rules-selfgenesis", 2, [G(), P("N1", "t1", 2), P("N1", "t5", 3)]))
     return out
